@@ -10,3 +10,77 @@ pub fn zz_fail_probe() {
     kani::cover!(r.is_ok());
     if let Ok(x) = r { assert!(x != 77, "probe"); }
 }
+
+#[kani::proof]
+pub fn zz_duration_new() {
+    let s: u64 = kani::any();
+    let n: u32 = kani::any();
+    kani::assume(s < u64::MAX - 10);
+    let d = core::time::Duration::new(s, n);
+    assert!(d.subsec_nanos() < 1_000_000_000);
+    assert!(d.as_secs() >= s);
+}
+
+#[kani::proof]
+#[kani::unwind(10)]
+#[kani::stub(minicbor::decode::Decoder::skip, crate::util::skip_unreachable)]
+pub fn zz_range_td() {
+    let a: [u8; 4] = kani::any();
+    let buf = [0x82, a[0], a[1], a[2], a[3]];
+    let mut d = Decoder::new(&buf[..]);
+    let r = d.decode::<core::ops::Range<u8>>();
+    if let Ok(x) = r { kani::cover!(x.start == 200 && x.end == 7); }
+}
+
+#[kani::proof]
+#[kani::unwind(10)]
+#[kani::stub(minicbor::decode::Decoder::skip, crate::util::skip_unreachable)]
+pub fn zz_range_enc() {
+    let v = core::ops::Range::<u8> { start: kani::any(), end: kani::any() };
+    let (out, pos, ok) = enc_cap(&v);
+    let buf = [0x82, out[1], out[2], out[3], out[4]];
+    let mut d = Decoder::new(&buf[..]);
+    let r = d.decode::<core::ops::Range<u8>>();
+    assert!(r.is_ok());
+    assert!(r.unwrap() == v);
+    assert!(d.position() == pos);
+}
+
+fn range_prefix_k(k: usize) {
+    let v = core::ops::Range::<u8> { start: kani::any(), end: kani::any() };
+    let (out, pos, ok) = enc_cap(&v);
+    let buf = [0x82, out[1], out[2], out[3], out[4]];
+    if k < pos {
+        let mut d = Decoder::new(&buf[..k]);
+        let r = d.decode::<core::ops::Range<u8>>();
+        assert!(r.is_err());
+        if let Err(e) = r { assert!(e.is_end_of_input()); }
+    }
+}
+#[kani::proof]
+#[kani::unwind(10)]
+#[kani::stub(minicbor::decode::Decoder::skip, crate::util::skip_unreachable)]
+pub fn zz_range_pfx3() { range_prefix_k(3) }
+#[kani::proof]
+#[kani::unwind(10)]
+#[kani::stub(minicbor::decode::Decoder::skip, crate::util::skip_unreachable)]
+pub fn zz_range_pfx1() { range_prefix_k(1) }
+#[kani::proof]
+#[kani::unwind(10)]
+#[kani::stub(minicbor::decode::Decoder::skip, crate::util::skip_unreachable)]
+pub fn zz_range_pfx_all() { range_prefix_k(0); range_prefix_k(1); range_prefix_k(2); range_prefix_k(3); range_prefix_k(4); }
+
+#[kani::proof]
+#[kani::unwind(10)]
+#[kani::stub(minicbor::decode::Decoder::skip, crate::util::skip_unreachable)]
+pub fn zz_range_pfx_sym() {
+    let v = core::ops::Range::<u8> { start: kani::any(), end: kani::any() };
+    let (out, pos, ok) = enc_cap(&v);
+    let buf = [0x82, out[1], out[2], out[3], out[4]];
+    let k: usize = kani::any();
+    kani::assume(k < pos);
+    let mut d = Decoder::new(&buf[..k]);
+    let r = d.decode::<core::ops::Range<u8>>();
+    assert!(r.is_err());
+    if let Err(e) = r { assert!(e.is_end_of_input()); }
+}
